@@ -112,6 +112,42 @@ def irregular_interleaving(t) -> bool:
     return any(irregular_interleaving(c) for c in t["content"] if isinstance(c, dict))
 
 
+def orders_consistent(trees) -> bool:
+    """Several samples can all be reproduced in order by ONE class iff, element by element (by path), the child
+    names of every sample occur in contiguous runs and the precedences between names are free of cycles."""
+    prec: dict = {}
+
+    def walk(t, path):
+        kids = [c for c in t["content"] if isinstance(c, dict)]
+        names = [tuple(c["name"]) for c in kids]
+        runs = [n for i, n in enumerate(names) if i == 0 or names[i - 1] != n]
+        if len(runs) != len(set(runs)):
+            return False
+        g = prec.setdefault(path, {})
+        for a, b in zip(runs, runs[1:]):
+            g.setdefault(a, set()).add(b)
+        return all(walk(c, path + (tuple(c["name"]),)) for c in kids)
+
+    if not all(walk(t, (tuple(t["name"]),)) for t in trees):
+        return False
+    for g in prec.values():
+        state: dict = {}
+
+        def cyc(n):
+            if state.get(n) == 1:
+                return True
+            if state.get(n) == 2:
+                return False
+            state[n] = 1
+            r = any(cyc(m) for m in g.get(n, ()))
+            state[n] = 2
+            return r
+
+        if any(cyc(n) for n in list(g)):
+            return False
+    return True
+
+
 def strip_nulls(x):
     if isinstance(x, dict):
         return {k: strip_nulls(v) for k, v in x.items() if v is not None and v != []}
@@ -134,6 +170,11 @@ def run(ctx):
                       extra_files={"run.cfg": f"SPECIFICATION Spec\nCONSTANTS\n  MaxDocIdx = 5\n  MultiSample = {'TRUE' if multi else 'FALSE'}\nINVARIANT InvSamplesAccepted\nCONSTRAINT Emit\nCHECK_DEADLOCK FALSE\n"},
                       label=f"MC_Infer sample sets ({'1..4 samples' if multi else 'single sample'})", tags=("SAMPLES",), timeout=3000)
         printed += res.printed
+    # second family: subsets of six optional elements in a hidden order (consistent orders: ORDER is demanded)
+    res = ctx.tlc("MC_InferSub", "run.cfg", workers=1, simulate=f"num={ctx.pick(120, 5000)}", depth=7,
+                  extra_files={"run.cfg": "SPECIFICATION Spec\nINVARIANT InvOrderRealisable\nINVARIANT InvOptional\nCONSTRAINT Emit\nCHECK_DEADLOCK FALSE\n"},
+                  label="MC_InferSub subsets of optional elements", tags=("SAMPLES",), timeout=3000)
+    printed += res.printed
     seen = set()
     n = 0
     for _t, c in printed:
@@ -171,6 +212,12 @@ def xml_files(ctx, files):
             return
         xctx = XmlContext(models_package=gen.pkg)
         src = next((v for v in gen.files.values() if "class Root" in v), "")[:3500]
+        # element ORDER: a single sample always; several samples when their child orders are mutually consistent
+        # (one total order of names reproduces them all)
+        try:
+            ordered = len(files) == 1 or orders_consistent([infoset.canon(infoset.parse(t)) for t in files.values()])
+        except Exception:  # noqa: BLE001
+            ordered = len(files) == 1
         for name, text in files.items():
             ctx.case(("xml-sample", json.dumps(files, sort_keys=True), name))
             with warnings.catch_warnings(record=True) as w:
@@ -185,11 +232,13 @@ def xml_files(ctx, files):
                 ctx.violation(f"sample {name} parses with a conversion warning", {**info, "sample": text, "source": src})
             # element ORDER is demanded only when there is a single sample: several samples that
             # interleave the same names differently cannot all be reproduced by one model
-            same, ta, tb = xml_same(text, out, ordered=len(files) == 1)
+            same, ta, tb = xml_same(text, out, ordered=ordered)
             if not same:
                 tags = []
                 if len(files) == 1 and _unordered(ta) == _unordered(tb) and irregular_interleaving(ta):
                     tags = ["F29"]     # same elements and values, only the sibling order of an irregular interleaving differs
+                if len(files) >= 3 and _unordered(ta) == _unordered(tb):
+                    tags = ["F38"]     # three or more partial samples: the pairwise merge of field orders is not globally consistent
                 ctx.violation(f"sample {name} is not reproduced: {out}", {**info, "sample": text, "out": out, "source": src, "finding_tags": tags})
     finally:
         gen.cleanup()
